@@ -27,7 +27,7 @@ func init() {
 		Rule: "history tree over a live pool (int, float, str, two arrays, nested array, object, bear child, map with scalar and non-scalar keys, map with several non-scalar keys, range, function, Either value, error wrapper): " +
 			"depth 1 = every property reachable along the prototype chain of every pool value (discovered at run time) x {no argument, each of 10 arguments, 4 argument pairs, trailing function}, every infix operator over all ordered pool pairs, slices, unpacking, chains with chain argument; " +
 			"depth 2 (thorough 3) = all sequences over the container-producing core (~45 templates) whose operands range over the pool and over earlier results; incl. 8 operations whose callee keeps the argument array / [acc, elem] pair it was given (result compared with what each held when created; a value that contains itself is a violation); after every operation the deep fingerprint (Go pointer identity of elements/pairs/keys/bounds, payload, prototype) and Repr of every earlier value and the key lists of the built-in prototypes must be unchanged; " +
-			"states = histories, transitions = operations executed; non-trivial = operation that returned a value (not an error); distinct = distinct history",
+			"states = histories, transitions = operations executed; non-trivial = operation that returned a value (not an error); distinct = distinct history; round 7: A closure family observes functions by what they return: functions yielded by an iterator, born from one literal evaluated several times (keyword defaults from the enclosing scope, as function, method and iterator) or closing over a container are probed by calls after every operation of every sequence of <=3 (thorough 4) over 20 operations that advance/copy the iterator, evaluate the literals again and call the functions.",
 		Assumptions: []string{
 			"function environments and iterator state are excluded from the fingerprint (the statement allows them to change)",
 			"histories are replayed from a fresh pool each time (live objects cannot be cloned), never merged",
